@@ -17,11 +17,6 @@ pub open spec fn lex_lt(a: Seq<u8>, b: Seq<u8>) -> bool decreases a.len() {
     if b.len() == 0 { false } else if a.len() == 0 { true } else if a[0] != b[0] { a[0] < b[0] } else { lex_lt(a.drop_first(), b.drop_first()) }
 }
 pub open spec fn lex_le(a: Seq<u8>, b: Seq<u8>) -> bool { a == b || lex_lt(a, b) }
-impl vstd::std_specs::cmp::PartialEqSpecImpl for Slice {
-    open spec fn obeys_eq_spec() -> bool { true }
-    open spec fn eq_spec(&self, other: &Slice) -> bool { self@ == other@ }
-}
-impl PartialEq for Slice { #[verifier::external_body] fn eq(&self, other: &Slice) -> (r: bool) { unimplemented!() } }
 impl vstd::std_specs::cmp::PartialOrdSpecImpl for Slice {
     open spec fn obeys_partial_cmp_spec() -> bool { true }
     open spec fn partial_cmp_spec(&self, other: &Slice) -> Option<Ordering> {
